@@ -1,0 +1,12 @@
+//go:build !verif
+// +build !verif
+
+// Package verifhook marks the points between the read and the write of DVID's
+// read-modify-write sequences.  In a normal build Yield does nothing.  Built with
+// the tag "verif", a verification harness can install a callback that runs at these
+// points (to hold one request there while another one runs).
+package verifhook
+
+// Yield marks a point between the read and the write of a read-modify-write sequence.
+// It is a no-op in builds without the "verif" tag.
+func Yield(site string) {}
